@@ -40,7 +40,7 @@ def load_config():
     try:
         cl = json.load(open(os.path.join(ROOT, "vc", "claimed.json")))
         ready = set(cl.get("units_ready", []))
-        for pid in cl.get("claimed", []):
+        for pid in ([] if os.environ.get("VERIF_ALL_UNITS") else cl.get("claimed", [])):     # VERIF_ALL_UNITS=1: builders' runs
             pc = cfg["properties"].get(pid)
             if not pc: continue
             for key in ("units", "kani"):
